@@ -64,7 +64,7 @@ func (p *Pipe) Model() []int {
 			}
 		}
 		return r
-	case "relay":
+	case "relay", "pre":
 		return p.A.Model()
 	case "chain":
 		return append(p.A.Model(), p.B.Model()...)
@@ -89,7 +89,7 @@ func (p *Pipe) Model() []int {
 // Depth is the number of generator stages suspended while the consumer's body runs.
 func (p *Pipe) Depth() int {
 	switch p.Kind {
-	case "map", "filter", "take", "relay":
+	case "map", "filter", "take", "relay", "pre":
 		return 1 + p.A.Depth()
 	case "chain":
 		a, b := p.A.Depth(), p.B.Depth()
@@ -132,6 +132,8 @@ func (p *Pipe) String() string {
 		return fmt.Sprintf("take[%d](%s)", p.N, p.A)
 	case "relay":
 		return fmt.Sprintf("relay(%s)", p.A)
+	case "pre":
+		return fmt.Sprintf("pre(%s)", p.A)
 	case "chain":
 		return fmt.Sprintf("chain(%s,%s)", p.A, p.B)
 	}
@@ -213,6 +215,8 @@ func (p *Pipe) Expr() ast.Node {
 		return call("gtake", sid, ilit(p.N), thunk(p.A.Expr()))
 	case "relay":
 		return call("grelay", sid, thunk(p.A.Expr()))
+	case "pre":
+		return call("gpre", sid, thunk(p.A.Expr()))
 	}
 	return call("gnest", sid, thunk(p.A.Expr()), thunk(p.B.Expr()))
 }
@@ -237,6 +241,11 @@ func PipeLibrary(traced bool) []string {
 		"gtake = (s, n, it) -> {\n c = 0\n for e <- it() {\n if c >= n return 0\n " + oneLine(y("s", "e")) + "\n c = c + 1\n }\n}",
 		"gnest = (s, a, b) -> for x <- a() for z <- b() " + yv(traced, "s", "x * 10 + z"),
 		// a yield evaluates to the yielded value: gone's result is the value of its yield
+		// runs its source to the end once (a finished loop of its own, its contexts freed) before it yields anything
+		"gpre = (s, it) -> {\n for e <- it() 0\n for e <- it() yield e\n}",
+		// plain functions with loops of their own, for consumer bodies
+		"gsumto = (k) -> {\n s = 0\n for q <- fromto(0, 3) s = s + q * k\n s\n}",
+		"gzipto = (k) -> {\n s = 0\n for q, p <- fromto(0, 2), elems([5, 6, 7]) s = s + q + p\n for q <- fromto(0, 2) s = s - k\n s\n}",
 		"gone = (e) -> yield e",
 		"grelay = (s, it) -> for e <- it() {\n" + relayY(traced) + " if w != e write(\"BADYIELD:\" + toa(w) + \"\\n\")\n}",
 	}
